@@ -71,6 +71,16 @@ def gen(tier, seed):
         acuts = blocky(aad, ['a']) if aad else 'a.-'
         yield 'aead_inc 20 %s %s %s E %s fin #blocky' % (key.hex(), nonce.hex(), acuts, blocky(pt, ['e', 'em']))
         yield 'aead_inc 20 %s %s %s D %s fin.%s #blocky' % (key.hex(), nonce.hex(), acuts, blocky(ct, ['d', 'dm']), tag.hex())
+    # every AAD length 0..=80 and every data length 0..=200 (one-shot; the other coordinate walks through the residues)
+    for a in range(0, 81):
+        key, nonce = rng.bytes(rng.choice([16, 32])), rng.bytes(12)
+        aad, pt = rng.bytes(a), rng.bytes((a * 37) % 201)
+        yield 'aead_enc 20 %s %s %s %s #lensweep' % (key.hex(), nonce.hex(), aad.hex() or '-', pt.hex() or '-')
+    for n in range(0, 201):
+        key, nonce = rng.bytes(rng.choice([16, 32])), rng.bytes(12)
+        aad, pt = rng.bytes((n * 13) % 81), rng.bytes(n)
+        ct, tag = o.aead_encrypt(key, nonce, aad, pt)
+        yield 'aead_dec 20 %s %s %s %s %s #lensweep' % (key.hex(), nonce.hex(), aad.hex() or '-', ct.hex() or '-', tag.hex())
     # other round counts
     for rounds in (8, 12):
         for _ in range(60 if thorough else 12):
